@@ -40,16 +40,16 @@ pub fn c01(ctx: &mut Ctx) {
     ctx.rule = "pub/sub op sequences (RegPub/RegSub(cap)/Send/PushErr/EndPub/Block/Unblock/Run/Poll/Settle, 0-60 ops, <=3 publishers, <=4 subscribers) run against the real pubsub::Topic with harness-owned mock streams/sinks and executor; non-trivial = at least one subscriber received a frame AND (a sink returned Pending to the router OR two publishers were both pulled from); distinct by hash of the op sequence".into();
     ctx.assumptions.push("subscriber sinks are a model of FramedWrite over a flow-controlled stream (buffer on start_send, move to the wire on flush or when at capacity)".into());
     ctx.assumptions.push("cross-publisher order is not constrained (StreamMap start index is process-random)".into());
-    let g = PsGen { faults: false, close: false, wake_only: false, max_len: 60 };
+    let g = PsGen { bursts: true, faults: false, close: false, wake_only: false, max_len: 60 };
     let n = ctx.tier.pick(100_000, 3_000_000);
     ctx.search("ps-mixed", move || ps::case_strategy(g), n, true, ps_eval(c01_nontrivial));
     if ctx.failed() { return; }
-    let g = PsGen { faults: false, close: false, wake_only: true, max_len: 60 };
+    let g = PsGen { bursts: false, faults: false, close: false, wake_only: true, max_len: 60 };
     let n = ctx.tier.pick(50_000, 1_500_000);
     ctx.search("ps-wake-only", move || ps::case_strategy(g), n, true, ps_eval(c01_nontrivial));
     if ctx.failed() { return; }
     // subscribers that fail: the ones that stay healthy still get everything
-    let g = PsGen { faults: true, close: false, wake_only: false, max_len: 60 };
+    let g = PsGen { bursts: false, faults: true, close: false, wake_only: false, max_len: 60 };
     ctx.search("ps-with-failing-siblings", move || ps::case_strategy(g), ctx.tier.pick(60_000, 2_000_000), true, |c: &PsCase| {
         crate::core::watchdog::tick();
         let (o, f) = ps::run_case(c);
@@ -57,7 +57,7 @@ pub fn c01(ctx: &mut Ctx) {
     });
     if ctx.failed() { return; }
     // the same under the strictly wake-driven executor: nothing papers over a flush that was skipped
-    let g = PsGen { faults: true, close: false, wake_only: true, max_len: 60 };
+    let g = PsGen { bursts: false, faults: true, close: false, wake_only: true, max_len: 60 };
     ctx.search("ps-with-failing-siblings-wake-only", move || ps::case_strategy(g), ctx.tier.pick(60_000, 2_000_000), true, |c: &PsCase| {
         crate::core::watchdog::tick();
         let (o, f) = ps::run_case(c);
@@ -227,7 +227,7 @@ pub fn c02(ctx: &mut Ctx) {
     ctx.assumptions.push("routing tags are treated as opaque tokens learned from the first request of each requestor".into());
     ctx.assumptions.push("requests pulled while no replier is surely bound may be dropped (at most once)".into());
     ctx.assumptions.push("reply order towards one requestor is not constrained".into());
-    let g = RrGen { faults: false, close: false, wake_only: false, junk: false, big: false, many_repliers: false, max_len: 70, prelude: true };
+    let g = RrGen { faults: false, close: false, wake_only: false, junk: false, big: false, many_repliers: false, bursts: false, max_len: 70, prelude: true };
     ctx.search("rr-mixed", move || rr::case_strategy(g), ctx.tier.pick(100_000, 3_000_000), true, rr_eval(RrOpts::default(), c02_nontrivial));
     if ctx.failed() { return; }
     let g = RrGen { wake_only: true, ..g };
@@ -244,7 +244,7 @@ pub fn c10_nontrivial(f: &RrFacts) -> bool {
 pub fn c10(ctx: &mut Ctx) {
     ctx.rule = "req/rep op sequences biased to several replier registrations/departures (1-5 repliers) interleaved with requests, replies and block/unblock of any sink incl. the rejected repliers' sinks; binding reference model: FIFO registration, a replier registered while an earlier one is surely bound must see exactly [Error(REPLIER_ALREADY_BOUND)] then close, a replier registered after all earlier ones surely left must be bound and served; non-trivial = >=2 repliers, >=1 rejected, and (two rejections back-to-back, or a rejected sink returned Pending, or a rebind happened)".into();
     ctx.assumptions.push("'surely' = separated by a Settle (spurious polls + run) with no sink blocked; otherwise either outcome (bound or properly rejected) is accepted, never a half-rejected replier".into());
-    let g = RrGen { faults: false, close: false, wake_only: false, junk: false, big: false, many_repliers: true, max_len: 60, prelude: false };
+    let g = RrGen { faults: false, close: false, wake_only: false, junk: false, big: false, many_repliers: true, bursts: false, max_len: 60, prelude: false };
     ctx.search("rr-repliers", move || rr::case_strategy(g), ctx.tier.pick(120_000, 3_000_000), true, rr_eval(RrOpts { probe: true }, c10_nontrivial));
     if ctx.failed() { return; }
     let g = RrGen { wake_only: true, ..g };
@@ -265,19 +265,25 @@ pub fn c09(ctx: &mut Ctx) {
     ctx.rule = "both routers under a strictly wake-driven executor (only Run steps; the router is re-polled only when it was woken) plus a mixed leg with spurious polls for the spin bound; every mock call inside one poll is counted and must stay under max(50000, 16*(work+2)*(peers+4)); at quiescence every queued item of every registered stream has been pulled, every healthy sink is flushed, every registration was processed, and closing the channel completes the future; non-trivial = the router returned Pending at least twice or the population is one-sided (nobody / only publishers / only subscribers / only a replier / only requestors)".into();
     ctx.assumptions.push("mocks honour the waker contract strictly: they wake exactly the last waker they were given when they become ready".into());
     ctx.assumptions.push("a loop that calls no mock at all is only caught by the watchdog (exit 2)".into());
-    let g = PsGen { faults: false, close: false, wake_only: true, max_len: 50 };
+    let g = PsGen { bursts: false, faults: false, close: false, wake_only: true, max_len: 50 };
     ctx.search("ps-wake-only", move || ps::case_strategy(g), ctx.tier.pick(80_000, 2_000_000), true, ps_eval(c09_ps_nontrivial));
     if ctx.failed() { return; }
-    let g = PsGen { faults: true, close: true, wake_only: false, max_len: 50 };
+    let g = PsGen { bursts: false, faults: true, close: true, wake_only: false, max_len: 50 };
     ctx.search("ps-spin", move || ps::case_strategy(g), ctx.tier.pick(40_000, 1_000_000), true, ps_eval(c09_ps_nontrivial));
     if ctx.failed() { return; }
-    let g = RrGen { faults: false, close: false, wake_only: true, junk: false, big: false, many_repliers: false, max_len: 50, prelude: false };
+    let g = RrGen { faults: false, close: false, wake_only: true, junk: false, big: false, many_repliers: false, bursts: false, max_len: 50, prelude: false };
     ctx.search("rr-wake-only", move || rr::case_strategy(g), ctx.tier.pick(80_000, 2_000_000), true, rr_eval(RrOpts::default(), c09_rr_nontrivial));
+    if ctx.failed() { return; }
+    let gb = PsGen { bursts: true, faults: false, close: true, wake_only: true, max_len: 30 };
+    ctx.search("ps-wake-only-bursts", move || ps::case_strategy(gb), ctx.tier.pick(20_000, 400_000), true, ps_eval(|f| f.bursts > 0));
+    if ctx.failed() { return; }
+    let gb = RrGen { bursts: true, ..g };
+    ctx.search("rr-wake-only-bursts", move || rr::case_strategy(gb), ctx.tier.pick(20_000, 400_000), true, rr_eval(RrOpts::default(), |f| f.requestors > 8));
     if ctx.failed() { return; }
     let g = RrGen { many_repliers: true, ..g };
     ctx.search("rr-wake-only-repliers", move || rr::case_strategy(g), ctx.tier.pick(40_000, 1_000_000), true, rr_eval(RrOpts::default(), c09_rr_nontrivial));
     if ctx.failed() { return; }
-    let g = RrGen { faults: true, close: true, wake_only: false, junk: false, big: false, many_repliers: false, max_len: 50, prelude: false };
+    let g = RrGen { faults: true, close: true, wake_only: false, junk: false, big: false, many_repliers: false, bursts: false, max_len: 50, prelude: false };
     ctx.search("rr-spin", move || rr::case_strategy(g), ctx.tier.pick(40_000, 1_000_000), true, rr_eval(RrOpts::default(), c09_rr_nontrivial));
     if ctx.failed() { return; }
     // one-sided populations, exhaustively: sequences over one-sided alphabets
@@ -300,13 +306,13 @@ pub fn c16_rr_nontrivial(f: &RrFacts) -> bool { f.closed && f.close_with_peers &
 pub fn c16(ctx: &mut Ctx) {
     ctx.rule = "router histories with CloseChannel (what Server::shutdown calls) inserted at a generated position, followed by more sends/blocks/unblocks; closing phase unblocks every sink and runs wake-driven; oracle: the future completes (bounded polls) and, for pub/sub, every frame pulled from a publisher is on the wire of every healthy adopted subscriber exactly once in order and nothing is left unflushed; non-trivial = close happened while >=1 peer was registered and (a sink was blocked or had buffered data, or the previous op was a registration, or (req/rep) only one side was connected)".into();
     ctx.assumptions.push("world B does not include Server::shutdown's join_all; req/rep only promises termination (buffered requests/replies at shutdown are not claimed)".into());
-    let g = PsGen { faults: false, close: true, wake_only: false, max_len: 50 };
+    let g = PsGen { bursts: false, faults: false, close: true, wake_only: false, max_len: 50 };
     ctx.search("ps-close", move || ps::case_strategy(g), ctx.tier.pick(100_000, 3_000_000), true, ps_eval(c16_ps_nontrivial));
     if ctx.failed() { return; }
-    let g = PsGen { faults: false, close: true, wake_only: true, max_len: 50 };
+    let g = PsGen { bursts: false, faults: false, close: true, wake_only: true, max_len: 50 };
     ctx.search("ps-close-wake-only", move || ps::case_strategy(g), ctx.tier.pick(60_000, 1_500_000), true, ps_eval(c16_ps_nontrivial));
     if ctx.failed() { return; }
-    let g = RrGen { faults: false, close: true, wake_only: false, junk: false, big: false, many_repliers: false, max_len: 50, prelude: false };
+    let g = RrGen { faults: false, close: true, wake_only: false, junk: false, big: false, many_repliers: false, bursts: false, max_len: 50, prelude: false };
     ctx.search("rr-close", move || rr::case_strategy(g), ctx.tier.pick(100_000, 3_000_000), true, rr_eval(RrOpts::default(), c16_rr_nontrivial));
     if ctx.failed() { return; }
     let g = RrGen { wake_only: true, many_repliers: true, ..g };
@@ -375,28 +381,28 @@ pub fn c08(ctx: &mut Ctx) {
     if ctx.failed() { return; }
     ctx.search("router-direct", || direct::case_strategy(true), ctx.tier.pick(60_000, 2_000_000), true, d_eval);
     if ctx.failed() { return; }
-    let g = PsGen { faults: true, close: false, wake_only: false, max_len: 60 };
+    let g = PsGen { bursts: false, faults: true, close: false, wake_only: false, max_len: 60 };
     ctx.search("ps-faults", move || ps::case_strategy(g), ctx.tier.pick(100_000, 3_000_000), true, |c: &PsCase| {
         crate::core::watchdog::tick();
         let (o, f) = ps::run_case(c);
         match o { Outcome::Pass { .. } => Outcome::pass(ps_fault_labels(&f), f.faults_observed_with_healthy_sibling > 0 && f.subs_received > 0), o => o }
     });
     if ctx.failed() { return; }
-    let g = PsGen { faults: true, close: false, wake_only: true, max_len: 60 };
+    let g = PsGen { bursts: false, faults: true, close: false, wake_only: true, max_len: 60 };
     ctx.search("ps-faults-wake-only", move || ps::case_strategy(g), ctx.tier.pick(60_000, 2_000_000), true, |c: &PsCase| {
         crate::core::watchdog::tick();
         let (o, f) = ps::run_case(c);
         match o { Outcome::Pass { .. } => Outcome::pass(ps_fault_labels(&f), f.faults_observed_with_healthy_sibling > 0 && f.subs_received > 0), o => o }
     });
     if ctx.failed() { return; }
-    let g = RrGen { faults: true, close: false, wake_only: true, junk: false, big: false, many_repliers: true, max_len: 60, prelude: false };
+    let g = RrGen { faults: true, close: false, wake_only: true, junk: false, big: false, many_repliers: true, bursts: false, max_len: 60, prelude: false };
     ctx.search("rr-faults-wake-only", move || rr::case_strategy(g), ctx.tier.pick(60_000, 2_000_000), true, |c: &RrCase| {
         crate::core::watchdog::tick();
         let (o, f) = rr::run_case(c, RrOpts { probe: true });
         match o { Outcome::Pass { .. } => Outcome::pass(rr_fault_labels(&f), f.faults_observed > 0 && (f.replies_delivered > 0 || f.probe_ok)), o => o }
     });
     if ctx.failed() { return; }
-    let g = RrGen { faults: true, close: false, wake_only: false, junk: false, big: false, many_repliers: true, max_len: 60, prelude: false };
+    let g = RrGen { faults: true, close: false, wake_only: false, junk: false, big: false, many_repliers: true, bursts: false, max_len: 60, prelude: false };
     ctx.search("rr-faults", move || rr::case_strategy(g), ctx.tier.pick(100_000, 3_000_000), true, |c: &RrCase| {
         crate::core::watchdog::tick();
         let (o, f) = rr::run_case(c, RrOpts { probe: true });
@@ -413,7 +419,7 @@ pub fn replay_d(ctx_id: &str, case: &serde_json::Value) -> i32 {
 
 // ---------------------------------------------------------------- C11 (router half)
 pub fn c11_router(ctx: &mut Ctx) {
-    let g = RrGen { faults: false, close: false, wake_only: false, junk: true, big: true, many_repliers: false, max_len: 50, prelude: true };
+    let g = RrGen { faults: false, close: false, wake_only: false, junk: true, big: true, many_repliers: false, bursts: false, max_len: 50, prelude: true };
     ctx.search("rr-frames", move || rr::case_strategy(g), ctx.tier.pick(40_000, 1_500_000), true, |c: &RrCase| {
         crate::core::watchdog::tick();
         let (o, f) = rr::run_case(c, RrOpts { probe: true });
